@@ -1753,6 +1753,11 @@ func (n *node) spawn(factory gen.ProcessFactory, options gen.ProcessOptionsExtra
 	if options.LinkParent {
 		n.targetManager.AddLink(p.pid, p.parent)
 	}
+	if options.LinkChild && p.parent != n.corePID {
+		// before the process is registered: it can terminate right away, and
+		// a link added after that would never be answered with the exit signal
+		n.targetManager.AddLink(p.parent, p.pid)
+	}
 
 	// register process and switch it to the sleep state
 	p.state = int32(gen.ProcessStateSleep)
